@@ -262,11 +262,11 @@ class EObject(ENotifer, metaclass=Metasubinstance):
         for owner, feature in seek:
             fvalue = owner.eGet(feature)
             if feature.many:
-                if self in fvalue:
-                    fvalue.remove(self)
-                    continue
-                elif self is owner:
+                if self is owner:
                     fvalue.clear()
+                    continue
+                elif self in fvalue:
+                    fvalue.remove(self)
                     continue
                 value = next((val for val in fvalue
                               if getattr(val, '_wrapped', None) is self),
